@@ -8,6 +8,18 @@ BOUNDS = {
 }
 
 
+def apalache(cwd, module, args, timeout):
+    """returns (output, 'NoError' | 'Error' | other)"""
+    import subprocess, re, shutil
+    outdir = os.path.join(c.OUT, "apalache")
+    shutil.rmtree(outdir, ignore_errors=True)
+    p = subprocess.run(["timeout", str(timeout), "apalache-mc", "check"] + args + ["--out-dir=" + outdir, module], cwd=cwd,
+                       stdout=subprocess.PIPE, stderr=subprocess.STDOUT, text=True)
+    m = re.search(r"The outcome is: (\w+)", p.stdout)
+    shutil.rmtree(outdir, ignore_errors=True)
+    return p.stdout, (m.group(1) if m else "exit %d" % p.returncode)
+
+
 def run(tier, rep):
     b = BOUNDS[tier]
     c.build_harness()
@@ -21,6 +33,25 @@ def run(tier, rep):
     c.require_coverage(r, ["GrowVec", "GrowOther"], "MC_Necessity")
     rep.add(states=r.distinct, transitions=r.generated, exhaustive=True, checker_cmd=r.cmd,
             model_actions={k: v[1] for k, v in r.actions.items()})
+
+    # beyond the enumeration: the same merge restated with bounded folds, and C15 restated index by index, checked
+    # symbolically by Apalache for all pairs of duplicate-free lists of at most N items over the integers; TLC keeps the
+    # restatement tied to Necessity.tla (equal merges, equal verdicts on the result and on perturbed results)
+    apa = os.path.join(c.SPEC, "apa")
+    cfg2 = c.cfg_text(constants=dict(Alphabet=b["alphabet"], MaxLen=b["maxlen"], Emit=False),
+                      invariants=["InvSameMerge", "InvSameProperty", "SomeRejected"])
+    r2 = c.run_tlc("MC_NecessityApa", cfg2, "C15-apa-equiv", workers=8, timeout=1500, coverage=False, libs=[apa])
+    if r2.violated:
+        raise c.ToolError("the Apalache restatement of C15 disagrees with Necessity.tla (%s):\n%s" % (r2.violated, (r2.error_text or "")[-1500:]))
+    n = 4 if tier == "quick" else 6
+    out, how = apalache(apa, "NecessityApa.tla", ["--cinit=ConstInit%d" % n, "--inv=InvC15", "--length=0"], 300 if tier == "quick" else 1500)
+    if how == "Error":
+        rep.violation({"kind": "model", "module": "NecessityApa", "invariant": "InvC15", "trace": out[-4000:]},
+                      "the specification of merge_necessity violates C15 for some pair of lists of at most %d items (Apalache counterexample)" % n)
+    elif how != "NoError":
+        raise c.ToolError("apalache-mc ended with %s:\n%s" % (how, out[-1500:]))
+    rep.add(symbolic_bound=n, symbolic_checker="apalache-mc check --cinit=ConstInit%d --inv=InvC15 --length=0 NecessityApa.tla" % n,
+            restatement_states=r2.distinct)
 
     # spec -> impl: every enumerated pair through the real merge_necessity
     mm = os.path.join(c.OUT, "cases", "C15.mismatch.ndjson")
